@@ -23,6 +23,7 @@ import (
 	"github.com/jamespfennell/gtfs/extensions"
 	"github.com/jamespfennell/gtfs/extensions/nyctalerts"
 	"github.com/jamespfennell/gtfs/extensions/nycttrips"
+	gtfsrt "github.com/jamespfennell/gtfs/proto"
 )
 
 var raceLog *os.File
@@ -145,10 +146,13 @@ var c18Configs = []c18Config{
 type c18Call struct {
 	name string
 	run  func(opts *gtfs.ParseRealtimeOptions) string // parses, hashes, walks; returns the dump
+	// after (optional) is called once all threads are done: "" or what is wrong with what the call
+	// still holds (an error value whose text has changed since it was returned)
+	after func() string
 }
 
 func rtCall(name string, b []byte) c18Call {
-	return c18Call{name, func(opts *gtfs.ParseRealtimeOptions) string {
+	return c18Call{name: name, run: func(opts *gtfs.ParseRealtimeOptions) string {
 		r, err := gtfs.ParseRealtime(b, opts)
 		if err != nil {
 			return "error: " + err.Error()
@@ -163,10 +167,58 @@ func rtCall(name string, b []byte) c18Call {
 	}}
 }
 
+// c18OffMarker: line appended to a dump when a start date is not the start of the wire's day in the
+// zone of the call that parsed it (a date resolved in another call's zone)
+const c18OffMarker = "START-DATE-NOT-MIDNIGHT-IN-THE-ZONE-OF-THIS-CALL"
+
+// rtCallInZone: a call with options of its own (not the shared value): its own Timezone. Every
+// start date of the feed must come out as the start of that day in this call's zone.
+func rtCallInZone(name string, b []byte, zone *time.Location, wire map[string]string) c18Call {
+	return c18Call{name: name, run: func(_ *gtfs.ParseRealtimeOptions) string {
+		r, err := gtfs.ParseRealtime(b, &gtfs.ParseRealtimeOptions{Timezone: zone, Extension: wrapExt(extensions.NoExtension())})
+		if err != nil {
+			return "error: " + err.Error()
+		}
+		d := dumpRealtime(r, rtDumpOpts{links: true})
+		in := zone
+		if in == nil {
+			in = time.UTC
+		}
+		for i := range r.Trips {
+			t := &r.Trips[i]
+			if !t.ID.HasStartDate {
+				continue
+			}
+			if l := t.ID.StartDate.In(in); l.Format("20060102 15:04:05") != wire[t.ID.ID]+" 00:00:00" {
+				d += fmt.Sprintf("%s trip=%s wire=%s parsed=%s zone=%v\n", c18OffMarker, t.ID.ID, wire[t.ID.ID], t.ID.StartDate.Format(time.RFC3339), in)
+			}
+		}
+		return d
+	}}
+}
+
+var c18ZonesFeedCache []byte
+var c18ZonesWire = map[string]string{}
+
+// c18ZonesFeed: trips whose start dates alternate between two days
+func c18ZonesFeed() []byte {
+	if c18ZonesFeedCache == nil {
+		m := newFeed(cp(&tsAlphabet[0]))
+		for i, d := range []string{"20240620", "20240621", "20240620", "20240621", "20240620"} {
+			id := fmt.Sprintf("Z%d", i+1)
+			c18ZonesWire[id] = d
+			m.Entity = append(m.Entity, &gtfsrt.FeedEntity{Id: sp("tu" + id), TripUpdate: &gtfsrt.TripUpdate{Trip: &gtfsrt.TripDescriptor{TripId: sp(id), StartDate: sp(d), RouteId: sp("R")},
+				StopTimeUpdate: []*gtfsrt.TripUpdate_StopTimeUpdate{{StopId: sp("S" + id)}}}})
+		}
+		c18ZonesFeedCache = marshalFeed(m)
+	}
+	return c18ZonesFeedCache
+}
+
 // journalCall parses a feed, builds a journal from it and its shortened later version, and
 // exports it through the package-level templates.
 func journalCall(name string, b []byte) c18Call {
-	return c18Call{name, func(opts *gtfs.ParseRealtimeOptions) string {
+	return c18Call{name: name, run: func(opts *gtfs.ParseRealtimeOptions) string {
 		r, err := gtfs.ParseRealtime(b, opts)
 		if err != nil {
 			return "error: " + err.Error()
@@ -181,9 +233,18 @@ func journalCall(name string, b []byte) c18Call {
 }
 
 func staticCall(name string, z []byte) c18Call {
-	return c18Call{name, func(*gtfs.ParseRealtimeOptions) string {
+	var held error // the caller keeps the error it was given
+	var heldText string
+	after := func() string {
+		if held != nil && held.Error() != heldText {
+			return fmt.Sprintf("the error returned to this call read %q when it was returned and reads %q now", heldText, held.Error())
+		}
+		return ""
+	}
+	return c18Call{name: name, after: after, run: func(*gtfs.ParseRealtimeOptions) string {
 		r, err := gtfs.ParseStatic(z, gtfs.ParseStaticOptions{InheritWheelchairBoarding: true})
 		if err != nil {
+			held, heldText = err, err.Error()
 			return "error: " + err.Error()
 		}
 		for i := range r.Stops {
@@ -271,6 +332,18 @@ func c18EmptyMember(file string) []byte {
 			content = nil
 		}
 		members = append(members, rawMember{t.File, content})
+	}
+	return buildZip(members, false)
+}
+
+// c18WithoutMember: a well-formed archive from which one member is missing altogether.
+func c18WithoutMember(file string) []byte {
+	m := genStaticFeedN(&Ctx{}, false, baseCounts, nil, nil)
+	var members []rawMember
+	for _, t := range m.Tables {
+		if t.File != file {
+			members = append(members, rawMember{t.File, renderCSV(t, presentation{})})
+		}
 	}
 	return buildZip(members, false)
 }
@@ -389,6 +462,14 @@ func c18Harness(cfg c18Config, calls func() []c18Call) Harness {
 		trace := runThreads(c, bodies)
 		c.Steps(len(trace))
 		raceAfter := raceErrors()
+		var afterwards []string
+		for _, x := range cs {
+			if x.after != nil {
+				afterwards = append(afterwards, x.after())
+			} else {
+				afterwards = append(afterwards, "")
+			}
+		}
 		for i, x := range cs {
 			i, x := i, x
 			if !guardSig(c, "solo "+x.name, func() { solo[i] = x.run(cfg.mk()) }) {
@@ -408,8 +489,13 @@ func c18Harness(cfg c18Config, calls func() []c18Call) Harness {
 			}
 		}
 		for i := range cs {
+			if afterwards[i] != "" {
+				c.Fail("error-value-rewritten-by-another-call", "%s: call %d (%s): %s", desc, i, cs[i].name, afterwards[i])
+			}
 			if panics[i] != "" {
 				c.Fail("panic-under-concurrency:"+digitsRe.ReplaceAllString(panics[i], "N"), "%s: call %d panicked: %s", desc, i, panics[i])
+			} else if strings.Contains(got[i], c18OffMarker) || strings.Contains(solo[i], c18OffMarker) {
+				c.Fail("start-date-in-another-call's-zone", "%s: call %d (%s): a start date is not the start of its day in the zone of the call\nconcurrent:\n%s\nalone afterwards:\n%s", desc, i, cs[i].name, got[i], solo[i])
 			} else if got[i] != solo[i] {
 				c.Fail("result-differs-from-solo/"+cfg.name+"/"+firstDiffKind(solo[i], got[i]), "%s: call %d (%s) returned something else than when running alone\n%s", desc, i, cs[i].name, diffLines(solo[i], got[i]))
 			}
@@ -476,7 +562,7 @@ func init() {
 	register(&Check{
 		ID:    "C18",
 		Level: "model_checking",
-		Rule: "threads = parse calls (each followed by hashing and walking its own result) sharing input buffers and one options value; scenarios: realtime||realtime on the same buffer (a valid one; a rejected one: HTML + half a feed), on two copies of a feed of NYCT oddities (assigned trips without train id, updates without stop id) and on two different feeds (elevator feeds that share groups for nyctalerts), static||static on the same archive (known and never-seen unknown agency zone; members with UTF-8 / UTF-16 byte order marks; an archive of 1030 trips with a duplicate trip id, alone and twice; two archives rejected for an empty member of different names; two whose stop_times.txt makes the CSV reader fail; an archive with one rejected row of every kind, a missing optional file and column), realtime||realtime on a kitchen-sink feed (every optional field, alerts with route fall-backs, label-only and bare vehicles), static||realtime, journal+CSV export||journal+CSV export, for 8 configurations (nil Extension with and without Timezone, no-op, nycttrips and nyctalerts behind a yielding proxy, nycttrips and two nyctalerts policies unwrapped with the default zone); thorough adds 3-thread scenarios; every interleaving at the scheduling points (extension method calls + per-entity / per-file hooks) with <= 2 preemptions (thorough <= 4; <= 2 for three threads), each executed under -race with a hand-off the detector cannot see; " +
+		Rule: "threads = parse calls (each followed by hashing and walking its own result) sharing input buffers and one options value; scenarios: realtime||realtime on the same buffer (a valid one; a rejected one: HTML + half a feed), on two copies of a feed of NYCT oddities (assigned trips without train id, updates without stop id) and on two different feeds (elevator feeds that share groups for nyctalerts), static||static on the same archive (known and never-seen unknown agency zone; members with UTF-8 / UTF-16 byte order marks; an archive of 1030 trips with a duplicate trip id, alone and twice; two archives rejected for an empty member of different names; two whose stop_times.txt makes the CSV reader fail; an archive with one rejected row of every kind, a missing optional file and column), realtime||realtime on a kitchen-sink feed (every optional field, alerts with route fall-backs, label-only and bare vehicles), static||realtime, journal+CSV export||journal+CSV export, static||static on archives lacking different required files (each call keeps the error it was given and reads it again when all threads are done), realtime||realtime with options of their own whose time zones differ (alternating start dates: each must be the start of its day in the zone of its own call), for 8 configurations (nil Extension with and without Timezone, no-op, nycttrips and nyctalerts behind a yielding proxy, nycttrips and two nyctalerts policies unwrapped with the default zone); thorough adds 3-thread scenarios; every interleaving at the scheduling points (extension method calls + per-entity / per-file hooks) with <= 2 preemptions (thorough <= 4; <= 2 for three threads), each executed under -race with a hand-off the detector cannot see; " +
 			"non-trivial = distinct schedules in which both threads ran between points; oracle = zero race reports (runtime.RaceErrors per schedule) and every call's dump equal to its solo dump",
 		Assumptions: []string{"the Go race detector is trusted (no false positives; bounded shadow history)", "synchronisation inside the standard library / protobuf (sync.Pool, sync.Once) creates real happens-before edges that can hide a conflict in one schedule; the explored preemptions move the calls relative to those edges", "exhaustive over schedules at the listed points within the preemption bound, and over memory for the executed paths; not over inputs"},
 		Scenarios: func(tier string) []*Scenario {
@@ -550,6 +636,15 @@ func init() {
 				&Scenario{Name: "static-rejected-archives", Bound: k, Run: c18Harness(c18Configs[1], func() []c18Call {
 					// two archives rejected for the same reason in different members: each call's error is its own
 					return []c18Call{staticCall("ParseStatic(agency.txt empty)", c18EmptyMember("agency.txt")), staticCall("ParseStatic(routes.txt empty)", c18EmptyMember("routes.txt"))}
+				})},
+				&Scenario{Name: "rt-two-zones", Bound: k, Run: c18Harness(c18Configs[1], func() []c18Call {
+					// each call has options of its own: the same start dates in two zones (one left to the default)
+					f := c18ZonesFeed()
+					return []c18Call{rtCallInZone("ParseRealtime(America/Chicago)", f, mustLoc("America/Chicago"), c18ZonesWire), rtCallInZone("ParseRealtime(default zone)", f, nil, c18ZonesWire)}
+				})},
+				&Scenario{Name: "static-missing-required-files", Bound: k, Run: c18Harness(c18Configs[1], func() []c18Call {
+					// each call lacks another required file: each call's error is its own, also after the other call has failed
+					return []c18Call{staticCall("ParseStatic(no stop_times.txt)", c18WithoutMember("stop_times.txt")), staticCall("ParseStatic(no routes.txt)", c18WithoutMember("routes.txt"))}
 				})},
 				&Scenario{Name: "journal-and-export", Bound: k, Run: c18Harness(c18Configs[2], func() []c18Call {
 					return []c18Call{journalCall("journal+export(feed3)", c18Inputs.feeds[3]), journalCall("journal+export(feed5)", c18Inputs.feeds[5])}
